@@ -783,6 +783,13 @@ def conelp(c, G, h, dims = None, A = None, b = None, primalstart = None,
             Gf(z, rx, beta = 1.0, trans = 'T')
             resx = math.sqrt( xdot(rx, rx) )
 
+            # G'*z overwrites the strict upper triangular part of the 's'
+            # blocks of z with zeros.
+            ind = dims['l'] + sum(dims['q'])
+            for m in dims['s']:
+                misc.symm(z, m, ind)
+                ind += m**2
+
             # ry = b - A*x
             ry = ynewcopy(b)
             Af(x, ry, alpha = -1.0, beta = 1.0)
